@@ -44,10 +44,10 @@ type fileInstr struct {
 	src   []byte
 	name  string
 	edits []edit
-	n     struct{ points, spawns, selects, skippedSelects int }
+	n     struct{ points, spawns, selects, skippedSelects, racy int }
 }
 
-func (fi *fileInstr) off(p token.Pos) int { return fi.fset.Position(p).Offset }
+func (fi *fileInstr) off(p token.Pos) int  { return fi.fset.Position(p).Offset }
 func (fi *fileInstr) line(p token.Pos) int { return fi.fset.Position(p).Line }
 
 // transform renders src[lo:hi] with the edits inside applied (recursively).
@@ -178,6 +178,42 @@ func (fi *fileInstr) label(p token.Pos, what string) string {
 	return strconv.Quote(fmt.Sprintf("%s:%d %s", fi.name, fi.line(p), what))
 }
 
+// racyFields: plain (non-atomic, unlocked) fields of the library that the
+// free-running race pass found to be accessed concurrently on the unchanged
+// tree. They are not violations of any listed property by themselves; so that
+// the scheduled checks do not have a blind spot there, every statement that
+// touches one gets a scheduling point (the access is explored like a relaxed
+// atomic: word-level atomicity is assumed, the order is not). The race pass
+// accepts a race report only when both accesses are on such statements.
+var racyFields = []struct{ File, Expr string }{
+	// handler.syncer: read and written by makeSyncer, which SyncAdChain,
+	// SyncEntries / the announce path call before taking the per-publisher sync lock
+	{"subscriber.go", "h.syncer"},
+}
+
+// touchesRacyField reports whether the statement itself (for an if: its init
+// and condition, not its body) mentions a racy field of this file.
+func (fi *fileInstr) touchesRacyField(s ast.Stmt) (bool, string) {
+	lo, hi := s.Pos(), s.End()
+	switch x := s.(type) {
+	case *ast.IfStmt:
+		hi = x.Cond.End()
+	case *ast.AssignStmt, *ast.ReturnStmt, *ast.ExprStmt, *ast.IncDecStmt:
+	default:
+		return false, ""
+	}
+	txt := string(fi.src[fi.off(lo):fi.off(hi)])
+	if strings.Contains(txt, "func(") || strings.Contains(txt, "func (") {
+		return false, ""
+	}
+	for _, rf := range racyFields {
+		if rf.File == fi.name && strings.Contains(txt, rf.Expr) {
+			return true, "racy " + rf.Expr
+		}
+	}
+	return false, ""
+}
+
 func (fi *fileInstr) stmtList(list []ast.Stmt, labeled map[ast.Stmt]bool) {
 	for _, s := range list {
 		target := s
@@ -185,7 +221,14 @@ func (fi *fileInstr) stmtList(list []ast.Stmt, labeled map[ast.Stmt]bool) {
 			target = ls.Stmt
 			labeled[target] = true
 		}
-		if ok, what := shallowChanOp(target); ok {
+		ok, what := shallowChanOp(target)
+		if !ok {
+			ok, what = fi.touchesRacyField(target)
+			if ok {
+				fi.n.racy++
+			}
+		}
+		if ok {
 			pos := fi.off(target.Pos())
 			lbl := fi.label(target.Pos(), what)
 			fi.edits = append(fi.edits, edit{start: pos, end: pos, prio: 0, gen: func() string { return "vsched.Point(" + lbl + "); " }})
@@ -390,7 +433,7 @@ func genOverlay(dir string, propID string) (string, error) {
 	}
 	replace := map[string]string{}
 	var stats []string
-	total := struct{ points, spawns, selects, skipped int }{}
+	total := struct{ points, spawns, selects, skipped, racy int }{}
 	for _, pkg := range instrPackages {
 		pdir := filepath.Join(repoDir, pkg)
 		ents, err := os.ReadDir(pdir)
@@ -416,9 +459,10 @@ func genOverlay(dir string, propID string) (string, error) {
 			total.spawns += fi.n.spawns
 			total.selects += fi.n.selects
 			total.skipped += fi.n.skippedSelects
+			total.racy += fi.n.racy
 		}
 	}
-	stats = append(stats, fmt.Sprintf("points=%d spawns=%d priority-selects=%d selects-left-uncontrolled=%d", total.points, total.spawns, total.selects, total.skipped))
+	stats = append(stats, fmt.Sprintf("points=%d (of which at racy plain fields=%d) spawns=%d priority-selects=%d selects-left-uncontrolled=%d", total.points, total.racy, total.spawns, total.selects, total.skipped))
 	// virtual shim packages
 	for _, sp := range []string{"vsched", "vsync", "vatomic"} {
 		sdir := filepath.Join(verifDir, "shim", sp)
